@@ -6,8 +6,26 @@ HERE = os.path.dirname(os.path.abspath(__file__))
 CON = os.path.dirname(HERE)
 COMMON = os.path.join(CON, "common")
 
-ASSUMPTIONS = []
-FN_PROPS = {}
+ASSUMPTIONS = [
+    "the host's canonicaliser is the one of the source comment / DESIGN C04 oracle (method LF body LF canonH path LF canonP); hyper serialises the HeaderMap/URI it is given",
+    "hmac_sha256::HMAC is HMAC-SHA256 over key and the concatenated updates; hex::decode/encode are (un)hex (uninterpreted hmac_sha256, unhex_bytes, hex_text)",
+    "http: HeaderMap::iter yields every (name, value) once per value, values of one name in order; HeaderName is lower-case ASCII; HeaderValue::to_str is Ok exactly on visible-ASCII values; "
+    "request::Builder::header appends (name lower-cased) or keeps an error, method/uri keep the headers, body() yields the builder's parts; Builder::*_ref are Some iff no error",
+    "std: str::to_lowercase is `lower` (idempotent; ASCII lower-casing on ASCII text), str::trim is `trim`, eq_ignore_ascii_case compares ASCII-lower-cased text, Vec::extend appends the yielded items, "
+    "String Ord (Itertools::sorted on &String) is the lexicographic order on chars, String is a lawful HashMap key, format! concatenates literal pieces and displayed String/&str/bool arguments "
+    "(stub contracts generated from the literals in the tree)",
+    "query_pairs satisfies the contract proved in unit authz (same text)",
+    "C10: KeyKeeperSharedState::get_current_key_value / get_current_key_guid each send ONE GetKey message and project one field of the reply (unit actors); "
+    "key_record(k) is introduced only by those stubs' postconditions and by attest_key's precondition (its caller passes the one record the host issued)",
+    "send_request / build_http_sender (hyper client plumbing) are outside verus!{}: the write primitive of the agent's own calls, reached only through stubs whose precondition is the signed request",
+]
+FN_PROPS = {
+    "should_skip_sig": ["C04"], "compute_signature": ["C04"], "as_sig_input": ["C04"], "request_to_sign_input": ["C04"],
+    "headers_to_canonicalized_string": ["C04"], "get_path_and_canonicalized_parameters": ["C04"],
+    "build_request": ["C04", "C10"], "get": ["C04", "C10"],
+    "WireServerClient::get_goalstate": ["C10"], "WireServerClient::get_shared_config": ["C10"], "ImdsClient::get_imds_instance_info": ["C10"],
+    "attest_key": ["C10"], "ProxyServer::handle_request_with_signature": ["C10"],
+}
 
 
 SORTED_KEYS_ENS = """
@@ -98,7 +116,7 @@ HDR_H4 = """
             lemma_ascii_lower_id(key@);
             assert(lower(key@) == key@);
             lemma_header_lines_push(acc, key@, hm);
-            assert(h@ =~= header_line(key@, signed_value(hm[key@])));
+            assert(h@ =~= header_line(key@, signed_value(hm[key@])));  // @C04.headers_to_canonicalized_string.line_is_lower_name_colon_trimmed_value_lf
             let acc0 = acc;
             acc = acc.push(key@);
             assert forall|p: int, q: int| 0 <= p < q < acc.len() implies lex_lt(#[trigger] acc[p], #[trigger] acc[q]) by {
@@ -108,7 +126,7 @@ HDR_H4 = """
                     assert(lex_lt(KV[i], KV[i0]));
                 } else { assert(lex_lt(acc0[p], acc0[q])); }
             }
-            assert forall|x: Seq<char>| #[trigger] acc.contains(x) <==> lower(x) != AUTH_H() && exists|i: int| 0 <= i < i0 + 1 && #[trigger] KV[i] == x by {
+            assert forall|x: Seq<char>| #[trigger] acc.contains(x) <==> lower(x) != AUTH_H() && exists|i: int| 0 <= i < i0 + 1 && #[trigger] KV[i] == x by {  // @C04.headers_to_canonicalized_string.every_other_header_is_signed
                 if acc.contains(x) {
                     let j = choose|j: int| 0 <= j < acc.len() && acc[j] == x;
                     if j < acc0.len() { assert(acc0[j] == x); assert(acc0.contains(x)); } else { assert(KV[i0] == x); }
@@ -125,7 +143,7 @@ HDR_H4C = """
                 assert(*key == K[i0] && key@ == KV[i0]);
                 assert(K.to_set().contains(K[i0]));
                 lemma_ascii_lower_id(key@);
-                assert(lower(key@) == AUTH_H());
+                assert(lower(key@) == AUTH_H());  // @C04.headers_to_canonicalized_string.only_the_authorization_header_is_skipped
             }"""
 HDR_H5 = """
     proof {
@@ -172,9 +190,9 @@ PAR_H1 = """
                 assert(it.seq()[i0] == QP[i0]);
                 assert(P[i0] == (QP[i0].0@, QP[i0].1@));
                 let skey = string_of(sort_key(P[i0]));
-                assert(skey@ =~= key@ + value@);
-                assert forall|j: int| 0 <= j < i0 + 1 implies pairs@.contains_key(string_of(sort_key(#[trigger] P[j]))) by {}
-                assert forall|sk: String| #[trigger] pairs@.contains_key(sk) implies entry_for_key(P, i0 + 1, sk@, pairs@[sk].0@, pairs@[sk].1@) by {
+                assert(skey@ =~= key@ + value@);  // @C04.get_path_and_canonicalized_parameters.pairs_ordered_by_lower_key_then_value
+                assert forall|j: int| 0 <= j < i0 + 1 implies pairs@.contains_key(string_of(sort_key(#[trigger] P[j]))) by {}  // @C04.get_path_and_canonicalized_parameters.pairs_ordered_by_lower_key_then_value
+                assert forall|sk: String| #[trigger] pairs@.contains_key(sk) implies entry_for_key(P, i0 + 1, sk@, pairs@[sk].0@, pairs@[sk].1@) by {  // @C04.get_path_and_canonicalized_parameters.entry_is_lower_key_and_value_as_received
                     if sk@ == skey@ { assert(sk == skey); assert(sort_key(P[i0]) == sk@); }
                     else { assert(sk != skey); let j = choose|j: int| 0 <= j < i0 && j < P.len() && sort_key(#[trigger] P[j]) == sk@ && pairs@[sk].0@ == lower(P[j].0) && pairs@[sk].1@ == P[j].1; assert(sort_key(P[j]) == sk@); }
                 }
@@ -209,7 +227,7 @@ PAR_H4 = """
                 assert(entry_for_key(P, P.len() as int, key@, query_pair.0@, query_pair.1@));
                 let j = choose|j: int| 0 <= j < P.len() && j < P.len() && sort_key(#[trigger] P[j]) == key@ && query_pair.0@ == lower(P[j].0) && query_pair.1@ == P[j].1;
                 if P[j].1.len() == 0 { assert(key@ =~= lower(P[j].0)); }
-                assert(p@ =~= segment(P[j]));
+                assert(p@ =~= segment(P[j]));  // @C04.get_path_and_canonicalized_parameters.segment_is_lower_key_or_lower_key_eq_value
                 lemma_join_amp_push(segs, p@);
                 let segs0 = segs;
                 segs = segs.push(p@);
@@ -279,7 +297,7 @@ BR_H3 = """
                 assert(ascii_lower(crate::common::constants::AUTHORIZATION_HEADER@) == AUTH_H());
                 let val = choose|val: http::header::HeaderValue| hv_view(val) == authorization_value@
                     && #[trigger] hm_appended(hm_view(parts_headers(p1)), AUTH_H(), val) == hm_view(parts_headers(p2));
-                assert(hv_view(val) =~= "Azure-HMAC-SHA256"@ + " "@ + key_guid@ + " "@ + mac_spec(key@, sig_input_spec(parts_method(p2), parts_uri(p2), parts_headers(p1), opt_slice(body))));
+                assert(hv_view(val) =~= "Azure-HMAC-SHA256"@ + " "@ + key_guid@ + " "@ + mac_spec(key@, sig_input_spec(parts_method(p2), parts_uri(p2), parts_headers(p1), opt_slice(body))));  // @C04+C10.build_request.header_value_is_scheme_key_id_and_mac_under_that_key_over_own_parts
             }
             assert(signed_builder(request_builder, key_guid@, key@, opt_slice(body)));
         }"""
@@ -560,11 +578,12 @@ def build(u):
             git = hc.item("get", "fn")
             sends = [c for c in git["calls"] if c["kind"] == "path" and c["callee"] == "send_request"]
             aw = [a for a in git["awaits"] if sends and a["base"] == sends[0]["span"]]
-            if len(sends) != 1 or len(aw) != 1:
-                raise Undecided("get: expected one awaited send_request call")
+            gerr = [c for c in git["calls"] if c["kind"] == "path" and c["callee"] == "Err"]
+            if len(sends) != 1 or len(aw) != 1 or len(gerr) != 1:
+                raise Undecided("get: expected one awaited send_request call and one `return Err(..)`")
             u.take_fn(hc, "get",
                 pre_body="broadcast use axiom_to_string_uri;",
-                e9=[("Method::GET", None, "", "", "Method", "", dict(name="vx_e9_method_get", local=True)),
+                e9=[("Method::GET", "all", "", "", "Method", "", dict(name="vx_e9_method_get", local=True)),
                     # E9: send_request is generic over the body (`B::Error: Into<Box<dyn Error + Send + Sync>>` is not expressible in
                     # Verus); the call moves verbatim into a stub. Its precondition is the capability "what is sent upstream is a
                     # request produced by build_request for this (key id, key)".
@@ -572,7 +591,7 @@ def build(u):
                      "&host, port, request, log_fun, Ghost(key_guid), Ghost(key)", "Result<hyper::Response<hyper::body::Incoming>>", """
     requires key is Some && key_guid is Some ==> signed_request(request, key_guid->0@, key->0@, Seq::<u8>::empty()) && latched(key_guid->0@, key->0@),  // @C04+C10.get.sends_the_request_signed_by_build_request""",
                      dict(name="vx_e9_send_request", local=True, is_async=True, generics="<F: Fn(String) + Send + 'static>", body="send_request(host, port, request, log_fun).await")),
-                    ((git["calls"][5]["span"][0], git["calls"][5]["span"][1]), None, "full_url: &Uri, status: hyper::StatusCode", "full_url, status", "Result<T>", "    ensures r is Err,",
+                    (tuple(gerr[0]["span"]), None, "full_url: &Uri, status: hyper::StatusCode", "full_url, status", "Result<T>", "    ensures r is Err,",
                      dict(name="vx_e9_server_error", local=True, generics="<T>")),
                     ],
                 contract="""
